@@ -14,13 +14,16 @@ AlphaCounter == {Op(h, op, "u64", a, 0, 0) : h \in {1, 2}, op \in {"inc", "abs"}
 
 \* ---- gauge: handle 1 = from_arc(cell 1), 2 = clone, 3 = noop
 HTGauge == (1 :> H("gauge", 1, "-")) @@ (2 :> H("gauge", 1, "-")) @@ (3 :> H("gauge", 0, "-"))
-GVals == {0, 1, 0 - 2, NaN, PInf, NInf}
+GVals == {0, NZero, 1, 0 - 2, NaN, PInf, NInf}
 AlphaGauge == {Op(h, op, "f64", a, 0, 0) : h \in {1, 2}, op \in {"inc", "dec", "set"}, a \in GVals}
                 \cup {Op(3, "inc", "f64", 1, 0, 0), Op(3, "dec", "f64", NaN, 0, 0), Op(3, "set", "f64", PInf, 0, 0)}
                 \cup {Op(1, "inc", "dur", 1, 1, 0), Op(2, "dec", "u8", 3, 0, 0), Op(1, "set", "i8", 0 - 2, 0, 0)}
 \* FineCas: fewer values (the state carries the loaded value and the operation in flight per thread)
 AlphaGaugeCas == {Op(1, op, "f64", a, 0, 0) : op \in {"inc", "dec"}, a \in {1, 0 - 2, PInf}}
                    \cup {Op(2, "set", "f64", 5, 0, 0), Op(2, "inc", "f64", NInf, 0, 0), Op(3, "inc", "f64", 1, 0, 0)}
+
+\* the same plus signed zeros (bits are what compare_exchange compares: -0 and +0 are different cell contents)
+AlphaGaugeCasZ == AlphaGaugeCas \cup {Op(2, "set", "f64", NZero, 0, 0), Op(1, "inc", "f64", 0, 0, 0), Op(1, "dec", "f64", NZero, 0, 0)}
 
 \* ---- histogram: 1 = default record_many (loop) on storage 1, 2 = clone, 3 = overriding storage 2, 4 = noop
 HTHist == (1 :> H("hist", 1, "loop")) @@ (2 :> H("hist", 1, "loop")) @@ (3 :> H("hist", 2, "many")) @@ (4 :> H("hist", 0, "-"))
